@@ -69,6 +69,15 @@ def build(level='quick'):
     add('dict_other', [lambda: {'o': Other(a=1)}])
     add('list_set', [lambda: [{1, 2}], lambda: [{2, 1}]])
     add('dict_nested3', _dict_presentations([('z', lambda: [1, {'b': 2, 'a': (1, 2)}]), ('a', lambda: None)]))
+    # large and deeply nested values (the bounds of section 3.2 say depth <= 2 for the systematic part; these few tokens
+    # reach what only shows beyond a size or depth threshold)
+    add('long_str', [lambda: 'x' * 700])
+    add('long_str2', [lambda: 'x' * 699 + 'y'])
+    add('long_list', [lambda: list(range(300))])
+    add('deep_dict', [lambda: {'a': {'b': {'c': {'d': {'e': {'f': {'k': 1, 'j': 2}}}}}}},
+                      lambda: {'a': {'b': {'c': {'d': {'e': {'f': {'j': 2, 'k': 1}}}}}}}])
+    add('deep_obj', [lambda: [[[[[[Plain(a=1)]]]]]], lambda: [[[[[[Plain(a=1)]]]]]]])
+    add('deep_obj_other', [lambda: [[[[[[Other(a=1)]]]]]]])
     return u
 
 
